@@ -17,7 +17,9 @@ TRUSTED = [
     'object graphs with the real iteration order of bag.objects',
     'whether Entity.to_dict / Bag.to_dict flush the whole session first is scanned from source (Gen/C31Reduce.v); the key model Model/C31Flush.v is tied by correspondence on '
     'scenarios with pending members of cached collections',
-    'to_dict / to_json / pickle round trips are checked by differential search against a Python shadow of the session state (no theorem)',
+    'hand-written model Model/C31Pickle.v of Entity.__reduce__ / unpickle_entity / _db_set_(unpickling=True) / QueryResult state / unpickle_setwrapper, tied by correspondence with real '
+    'pickle round trips across sessions (status at pickling time x database changed in between x object already loaded in the unpickling session; one-to-many and many-to-many wrappers)',
+    'to_dict / to_json values are checked by differential search against a Python shadow of the session state (no theorem)',
 ]
 ASSUMPTIONS = [
     'composite keys have at least one part (Pony: at least two); the empty list and the list holding one empty string share the key "" (stated as reduce_empty_collision)',
@@ -30,7 +32,7 @@ RULE = ('correspondence: every tuple of 1..3 key parts over the strings of lengt
         '0-2 C each, 0-3 pending modifications, a shuffled subset of objects given) + one scenario with all 36 key pairs over six colliding-looking parts. '
         'non-trivial = key contains an escape or separator character / scenario has pending modifications or more than one given object; distinct = distinct canonical inputs')
 
-HEADER = 'Require Import PonyV.Base.PyBase PonyV.Model.C31Codec PonyV.Gen.C31Reduce PonyV.Model.C31Bag PonyV.Model.C31Flush.\nOpen Scope Z_scope.\n'
+HEADER = 'Require Import PonyV.Base.PyBase PonyV.Model.C31Codec PonyV.Gen.C31Reduce PonyV.Model.C31Bag PonyV.Model.C31Flush PonyV.Model.C31Pickle.\nOpen Scope Z_scope.\n'
 
 def czs(s):
     return '[' + '; '.join(str(ord(c)) for c in s) + ']' if s else '(@nil Z)'
@@ -315,6 +317,30 @@ def correspondence(ctx):
             add('to_dict_pending', 'ozlist_eqb (reported_members %s %s (fun _ => false) [%s]) %s' % (asc, pkc, '; '.join('%d%%nat' % o for o in members), realc),
                 {'scenario': sc, 'collection': label}, real, nt=any(pks[o] is None for o in members))
 
+    # (5) pickling across sessions: entity instances (status at pickling time, database changed in between or not, object loaded in
+    #     the unpickling session or not) and collection wrappers, against Model/C31Pickle.v.  Attribute 1 = n.
+    STATUS = {'loaded': 'Loaded', 'modified': 'Modified', 'created': 'Created', 'deleted': 'Deleted'}
+    ERR = {'OperationWithDeletedObjectError': 3, 'OrmError': 4}
+    for st in STATUS:
+        for change in (False, True):
+            for pre in (False, True):
+                r = I.pickle_entity_case(st, change, pre)
+                pickled = '(fun a => match a with 1%nat => Some 5 | _ => None end)'
+                if r[0] == 'err':
+                    e = 'match pickle_entity %s %s with Err c => Nat.eqb c %d | Ok _ => false end' % (STATUS[st], pickled, ERR.get(r[1], 99))
+                else:
+                    here = '(fun a => match a with 1%%nat => Some %d | _ => None end)' % r[3] if pre else 'no_vals'
+                    e = ('match pickle_entity %s %s with Ok p => ovals_eqb (unpickle_entity Loaded %s p 1%%nat) (Some %d) | Err _ => false end'
+                         % (STATUS[st], pickled, here, r[1]))
+                    if not (r[4] == 'x' and r[5]): disagreements.append({'what': 'unpickled object is not the identity-map object of its class', 'input': [st, change, pre], 'impl': list(r)})
+                add('pickle_entity', e, [st, change, pre], list(r))
+    for kind, kc in (('o2m', 'OneToMany'), ('m2m_s', 'ManyToMany'), ('m2m_k', 'ManyToMany')):
+        for pre in (False, True):
+            before, after, fresh = I.pickle_set_case(kind, pre)
+            nl = lambda l: '[' + '; '.join('%d%%nat' % x for x in l) + ']' if l else '(@nil nat)'
+            add('pickle_set', 'natlist_eqb (unpickle_set %s %s %s (fun _ => true)) %s' % (kc, nl(before if pre else []), nl(before), nl(after)), [kind, pre], [before, after, fresh])
+            if fresh != after: disagreements.append({'what': 'a fresh read of the collection differs from the unpickled wrapper', 'input': [kind, pre], 'impl': [after, fresh]})
+
     bad = run_bools(ctx, exprs)
     for i in bad[:20]:
         kind, inp, impl = meta[i]
@@ -385,6 +411,13 @@ def search(ctx, deep):
             f = failure_of(sc, cls, detail if isinstance(detail, dict) else {'detail': detail})
             per_key[f.key] = per_key.get(f.key, 0) + 1
             if per_key[f.key] == 1: failures.append(f)
+    for cls, detail in I.check_pickle_sets():
+        evals += 1
+        key = 'pickle-many-to-many-set-unpickles-empty' if (cls == 'pickle:set:wrong-items' and detail['kind'].startswith('m2m') and not detail['preload']
+                                                             and detail['after'] == []) else 'unlisted:' + cls
+        f = Failure(key, '%s: %s' % (cls, json.dumps(detail, default=str)[:300]), {'pickle_sets': True, 'class': cls})
+        per_key[f.key] = per_key.get(f.key, 0) + 1
+        if per_key[f.key] == 1: failures.append(f)
     pend = list(PENDING_FIXED) + [gen_pending(ctx.rng) for _ in range(3000 if deep else 250)]
     for sc in pend:
         res = I.check_pending(sc)
@@ -401,6 +434,11 @@ def search(ctx, deep):
 
 
 def replay(ctx, data):
+    if data.get('pickle_sets'):
+        for cls, detail in I.check_pickle_sets():
+            if cls == 'pickle:set:wrong-items' and detail['kind'].startswith('m2m') and not detail['preload'] and detail['after'] == []:
+                return Failure('pickle-many-to-many-set-unpickles-empty', '%s: %s' % (cls, json.dumps(detail, default=str)[:300]), data)
+        return None
     if 'pending_scenario' in data:
         for cls, detail in I.check_pending(data['pending_scenario']):
             return Failure('unlisted:' + cls, '%s: %s' % (cls, json.dumps(detail, default=str)[:300]), data)
@@ -418,9 +456,13 @@ def replay(ctx, data):
 
 
 LEVEL_TEXT = ('Machine-checked proof (Coq 8.16.1) that the composite-key encoding of Bag._reduce_composite_pk (re-translated from /repo on every run) is injective for all non-empty '
-              'lists of parts over all code points, through an explicit decoder (decode (reduce pk) = pk), hence distinct objects get distinct dictionary keys; a model of the Bag.to_dict '
-              'traversal proves that every given object is reported with all attributes when no given object is referred to by another given one (the complement is a recorded finding with witnesses). to_dict/to_json values against current session state and pickle round trips are checked by differential search on SQLite.')
-LEVEL_NOTE = ('Trusted: Coq kernel + vm_compute; the translator; str() injectivity per key column; the correspondence harness. The value-level claims (current state incl. unflushed changes, '
-              'pickle round trip) are tested, not proved.')
+              'lists of parts over all code points, through an explicit decoder (decode (reduce pk) = pk), hence distinct objects get distinct dictionary keys; models of the Bag.to_dict '
+              'traversal, of the flush that precedes to_dict (scanned from source) and of pickling (Entity.__reduce__/unpickle_entity/_db_set_, QueryResult state, SetInstance wrappers) prove: every '
+              'given object is reported in full when no given object is referred to by another given one; keys of pending collection members are reported; only loaded unmodified objects '
+              'pickle, unpickled attributes have their pickling-time values unless the unpickling session loaded its own, equal values when both sessions saw the same database, query results '
+              'keep items and order, one-to-many wrappers get their items back. The complements (given object also related; many-to-many wrapper unpickles empty) are recorded findings with '
+              'witnesses. to_dict/to_json VALUES against the current session state are checked by differential search on SQLite, not proved.')
+LEVEL_NOTE = ('Trusted: Coq kernel + vm_compute; the translator and source scans; str() injectivity per key column; the hand-written traversal / flush / pickling models (tied by vm_compute '
+              'correspondence with real runs, not derived from source); the correspondence harness. Database.to_json (front-end format with schema section), lazy attributes, inheritance are not covered.')
 TECHNIQUE = 'Coq proof of injectivity via an explicit decoder over a function regenerated from source by py2coq; vm_compute correspondence on adversarial keys and Bag traversals; shadow-state differential search'
 DESIGN_REF = 'DESIGN.md section 5, C31'
